@@ -944,7 +944,7 @@ func (r *reducer) canonAttrs(as []*Attr) {
 		switch a.K {
 		case AConst:
 			r.canonName(&a.Name, "title")
-			r.canonStr(&a.Val, "v", "&amp;lt;", "&quot;", "&#39;", "&amp;")
+			r.canonStr(&a.Val, "v", "&amp;lt;", "&quot;", "&#39;", "&#39;\"", "&amp;")
 			if a.Q != `"` {
 				o := a.Q
 				r.try(func() { a.Q = `"` }, func() { a.Q = o })
